@@ -154,31 +154,76 @@ func c03OpenRange(c *core.Ctx, r *core.Report) {
 	rangeF := c.Field(pkgWriter, "UnrotatedSegmentInfo.tsRange")
 	startF := c.Field(pkgDtu, "TimeRange.StartEpochMs")
 	endF := c.Field(pkgDtu, "TimeRange.EndEpochMs")
-	var earliest, latest ssa.Value
-	for _, p := range fn.Params {
-		switch p.Name() {
-		case "earliestTs":
-			earliest = p
-		case "latestTs":
-			latest = p
-		}
-	}
-	if earliest == nil || latest == nil {
-		panic(core.AnchorError{What: "earliestTs / latestTs parameters of updateUnrotatedBlockInfo"})
-	}
-	derives := func(v, from ssa.Value) bool {
+	// the flush's earliest / latest time: whatever arrives in this function from SegStore.earliest_millis /
+	// latest_millis — as a parameter, or as a field of a parameter struct that the caller fills from them
+	earliestF := c.Field(pkgWriter, "SegStore.earliest_millis")
+	latestF := c.Field(pkgWriter, "SegStore.latest_millis")
+	comesFrom := func(v ssa.Value, target *types.Var) bool {
 		for i := 0; i < 3; i++ {
-			if v == from {
-				return true
-			}
 			if cv, ok := v.(*ssa.Convert); ok {
 				v = cv.X
+			}
+		}
+		for _, o := range c.Origins(v, 2) {
+			if o.Kind != "field" {
 				continue
 			}
-			break
+			if o.Obj == types.Object(target) {
+				return true
+			}
+			// a carrier field: a field of a struct that arrives as a parameter of this function, into which
+			// some store of the package puts the target (the caller fills the parameter struct)
+			carrier, ok := o.Obj.(*types.Var)
+			if !ok {
+				continue
+			}
+			fromParam := false
+			if fa, ok := o.Val.(*ssa.FieldAddr); ok {
+				switch base := fa.X.(type) {
+				case *ssa.Parameter:
+					fromParam = base.Parent() == fn
+				case *ssa.Alloc:
+					if refs := base.Referrers(); refs != nil {
+						for _, u := range *refs {
+							if st, ok := u.(*ssa.Store); ok && st.Addr == ssa.Value(base) {
+								if p, ok := st.Val.(*ssa.Parameter); ok && p.Parent() == fn {
+									fromParam = true
+								}
+							}
+						}
+					}
+				}
+			}
+			if !fromParam {
+				continue
+			}
+			for _, g := range c.RepoFunctions() {
+				if core.FnPkgPath(g) != core.FnPkgPath(fn) {
+					continue
+				}
+				for _, blk := range g.Blocks {
+					for _, in := range blk.Instrs {
+						st, ok := in.(*ssa.Store)
+						if !ok {
+							continue
+						}
+						fa, ok := st.Addr.(*ssa.FieldAddr)
+						if !ok || core.FieldOfAddr(fa) != carrier {
+							continue
+						}
+						for _, o2 := range c.Origins(st.Val, 1) {
+							if o2.Kind == "field" && o2.Obj == types.Object(target) {
+								return true
+							}
+						}
+					}
+				}
+			}
 		}
-		return v == from
+		return false
 	}
+	derives := func(v ssa.Value, target *types.Var) bool { return comesFrom(v, target) }
+	earliest, latest := earliestF, latestF
 	firstTime := func(b *ssa.BasicBlock) bool {
 		for x := b; x != nil; x = x.Idom() {
 			idom := x.Idom()
